@@ -16,6 +16,7 @@ func init() {
 }
 
 func runC15(c *rules.Ctx) {
+	clClaimRebaseRules(c)
 	const A = "osmoutils/accum.AccumulatorObject."
 	const P = "osmoutils/accum."
 	c.Let("POS", "accum.GetPosition(accum,name)#0")
